@@ -257,7 +257,7 @@ func runWorkers(bin, prop, tier string, seed int64, shards, onlyCase int, extraE
 			// (which runs the case in the same shard) sees the same environment.
 			env = append(env, [][]string{
 				nil,
-				{"COLUMNS=80", "LINES=24", "TERM=xterm-256color", "COLORTERM=truecolor"},
+				{"COLUMNS=80", "LINES=24", "TERM=xterm-256color", "COLORTERM=truecolor", "TERM_PROGRAM=vscode", "TERM_PROGRAM_VERSION=1.90", "VTE_VERSION=7600", "WT_SESSION=1", "KONSOLE_VERSION=230800", "CLICOLOR_FORCE=1", "FORCE_COLOR=3"},
 				{"COLUMNS=120", "TERM=dumb", "LANG=tr_TR.UTF-8", "LC_ALL=tr_TR.UTF-8"},
 				{"COLUMNS=40", "LINES=10", "TZ=Pacific/Kiritimati", "GOMAXPROCS=3", "GODEBUG=gctrace=0"},
 			}[i%4]...)
